@@ -23,7 +23,9 @@
                    lexically, symbolic links not resolved): a link to a directory counts as that
                    directory standing at the link's location.  Hence a symlinked job directory
                    ws/<id> -> X is the job <id> of the project that owns ws, whatever X is, and
-                   Project.path / Job.project.path are lexical paths.
+                   Project.path / Job.project.path are lexical paths.  Where the property text itself
+                   fixes the answer (SymlinkedJobDirDetermined below: the symlinked job directory named in
+                   the quantifier) a disagreement is a VIOLATION; elsewhere it is only drift of this rule.
      CAL_Cwd       a relative query is interpreted against os.getcwd(), i.e. against the PHYSICAL
                    path of the working directory (Phys(q) below).
      CAL_Regex     "id-like" is the regular expression [0-9a-f]{32}; the specification abstracts it as
@@ -158,9 +160,24 @@ Sampled ==
   IF NSAMPLE = 0 THEN {}
   ELSE LET raw == {AssignBy(WithRoot(RootKind(f), Decode(f, <<>>, RootKind(f), 5)), f) : f \in {(((SEED0 % 60000) + 7919 * i) % 60000) + 1 : i \in 1..NSAMPLE}}
        IN {t \in raw : Cardinality(LinkPaths(t)) <= 3 /\ Cardinality(t) <= 40}
+\* (4) symlinked job directories across projects (always part of the enumeration; 12 trees): project PA at a/ has the
+\*     real job directory a/workspace/I1 (plain job or job-with-nested-project) with a plain sub-directory; project
+\*     PB (at b/, or the root itself) has in ITS workspace an id-named symlink - named I1 (same id) or I2 (different
+\*     id) - pointing to PA's job directory.  Queries then include the link path and the sub-directory below it.
+CrossLinks ==
+  {LET pb  == IF c[1] = "root" THEN <<>> ELSE <<B>>
+       rk  == IF c[1] = "root" THEN "proj" ELSE c[2]
+       jd  == <<A, W, I1>>
+       base == {Mk(<<>>, rk), Mk(<<A>>, "proj"), Mk(<<A, W>>, "ws"), Mk(jd, c[3]), Mk(jd \o <<A>>, "dir")}
+               \cup (IF c[3] = "jobproj" THEN {Mk(jd \o <<W>>, "ws")} ELSE {})
+               \cup (IF rk = "proj" THEN {Mk(<<W>>, "ws")} ELSE {})
+               \cup (IF pb = <<>> THEN {} ELSE {Mk(<<B>>, "proj"), Mk(<<B, W>>, "ws")})
+   IN base \cup {[p |-> pb \o <<W, c[4]>>, k |-> "link", tgt |-> jd]}
+   : c \in ({"root"} \X {"proj"} \X {"job", "jobproj"} \X {I1, I2})
+            \cup ({"b"} \X {"dir", "proj"} \X {"job", "jobproj"} \X {I1, I2})}
 FileIn == IF MODE = "file" THEN ndJsonDeserialize(IOEnv.TREES_FILE) ELSE <<>>
 FileTree(i) == {FileIn[i].nodes[j] : j \in 1..Len(FileIn[i].nodes)}
-Trees == IF MODE = "file" THEN {FileTree(i) : i \in 1..Len(FileIn)} ELSE Exhaustive \cup Sampled
+Trees == IF MODE = "file" THEN {FileTree(i) : i \in 1..Len(FileIn)} ELSE Exhaustive \cup Sampled \cup CrossLinks
 TreeSeq == SetToSeq(Trees)
 
 ---------------------------------------------------------------------------
@@ -244,6 +261,16 @@ JobOK(t, q, a) ==
 
 Candidates(q) == {Err} \cup {OkP(p) : p \in PrefixesOf(q)}
 
+\* Which via-symlink answers does the PROPERTY TEXT itself determine (so that a disagreement is a violation, not a
+\* drift of CAL_Lexical)?  The quantifier names "symlinked job directories" and the statement says get_job returns
+\* "the project whose workspace holds" the job directory: when the only symbolic link on the query path is the
+\* innermost job directory itself (an id-named link standing in a project's workspace), the project is the one
+\* whose workspace holds that link and the job directory is the link path - whatever the link points to.
+LinksCrossed(t, q) == {p \in PrefixesOf(q) : p # <<>> /\ Resolve(t, Front(p)) # NONE
+                                            /\ Has(t, Append(Resolve(t, Front(p)), Last(p)))
+                                            /\ At(t, Append(Resolve(t, Front(p)), Last(p))).k = "link"}
+SymlinkedJobDirDetermined(t, q) == LET a == GetJob(t, q) IN a.ok /\ LinksCrossed(t, q) = {a.dir}
+
 WellFormed(t) ==
   /\ Has(t, <<>>)
   /\ \A n \in t : n.k \in Kinds /\ (n.p # <<>> => Has(t, Front(n.p)))                    \* prefix closed
@@ -303,7 +330,7 @@ SecondInitNoop == [][ph = 2 => t' = t]_vars
 (* export: one record per tree with every query and the expected answers *)
 NodeSeq(s) == SetToSeq(s)
 CaseOf(tr, qq) ==
-  [q |-> qq, exists |-> Exists(tr, qq), phys |-> Phys(tr, qq),
+  [q |-> qq, exists |-> Exists(tr, qq), phys |-> Phys(tr, qq), det |-> SymlinkedJobDirDetermined(tr, qq),
    gp |-> GetProject(tr, qq, TRUE), gpx |-> GetProject(tr, qq, FALSE), open |-> OpenProject(tr, qq),
    job |-> GetJob(tr, qq),
    init |-> IF InitEnabled(tr, qq)
@@ -321,7 +348,8 @@ Judge(i) == LET tr == FileTree(i)
                 ob == FileIn[i].obs
             IN [wf |-> WellFormed(tr),
                 bad |-> SelectSeq([j \in 1..Len(ob) |-> j], LAMBDA j : ~ObsOK(tr, ob[j])),
-                exp |-> [j \in 1..Len(ob) |-> [exists |-> Exists(tr, ob[j].q), phys |-> Phys(tr, ob[j].q), gp |-> GetProject(tr, ob[j].q, TRUE), gpx |-> GetProject(tr, ob[j].q, FALSE),
+                exp |-> [j \in 1..Len(ob) |-> [exists |-> Exists(tr, ob[j].q), phys |-> Phys(tr, ob[j].q),
+                                               det |-> SymlinkedJobDirDetermined(tr, ob[j].q), gp |-> GetProject(tr, ob[j].q, TRUE), gpx |-> GetProject(tr, ob[j].q, FALSE),
                                                open |-> OpenProject(tr, ob[j].q), job |-> GetJob(tr, ob[j].q)]]]
 Export == /\ TLCGet("level") >= 0
           /\ IF MODE = "file"
